@@ -513,11 +513,11 @@ func (obj *Package) Unexport(name string) {
 	obj.mu.Lock()
 	// TBD remove from Exports list
 	if obj.funcs != nil {
-		if fi := obj.funcs[name]; fi != nil {
+		if fi := obj.funcs[name]; fi != nil && fi.Pkg == obj {
 			fi.Export = false
 			for _, u := range obj.Users {
 				u.mu.Lock()
-				if xf := u.funcs[name]; xf != nil && obj == xf.Pkg {
+				if u.funcs[name] == fi {
 					delete(u.funcs, name)
 				}
 				u.mu.Unlock()
@@ -525,11 +525,11 @@ func (obj *Package) Unexport(name string) {
 		}
 	}
 	if obj.vars != nil {
-		if vv := obj.vars[name]; vv != nil {
+		if vv := obj.vars[name]; vv != nil && vv.Pkg == obj {
 			vv.Export = false
 			for _, u := range obj.Users {
 				u.mu.Lock()
-				if xv := u.vars[name]; xv != nil && obj == xv.Pkg {
+				if u.vars[name] == vv {
 					delete(u.vars, name)
 				}
 				u.mu.Unlock()
@@ -543,8 +543,15 @@ func (obj *Package) Unexport(name string) {
 func (obj *Package) Undefine(name string) {
 	name = strings.ToLower(name)
 	obj.mu.Lock()
-	if obj.funcs != nil {
+	if fi := obj.funcs[name]; fi != nil {
 		delete(obj.funcs, name)
+		for _, u := range obj.Users {
+			u.mu.Lock()
+			if u.funcs[name] == fi && fi.Pkg == obj {
+				delete(u.funcs, name)
+			}
+			u.mu.Unlock()
+		}
 	}
 	obj.mu.Unlock()
 	pname := fmt.Sprintf("%s:%s", obj.Name, name)
